@@ -1,17 +1,19 @@
 import Generated.Facts
 /-
-  SlimProps.Bridge.C20 — tie 1, fact group "c20" of lean/Generated/Facts.lean (regenerated from /repo's
-  working tree by harness/cmd/extract on every run).  One module per fact group: when the extractor
-  cannot find a group's facts, or a fact changed, only this module stops compiling and only the
-  properties that rely on it report the broken tie.
+  SlimProps.Bridge.C20 — tie 1, fact group "c20flow" of lean/Generated/Facts.lean (regenerated from /repo's
+  working tree by harness/cmd/extract on every run): SEMANTIC facts, computed by a conservative taint
+  analysis over go/ast + go/types that follows the caller's memory through local aliases, readers
+  (`bytes.NewReader`) and calls of functions of the package (harness/cmd/extract/main.go, `taint`,
+  `optEscapes`).  They do not depend on how the code is written, only on where the memory can go.
 -/
 namespace Bridge
 
-/-! ### C20: the caller's buffer is only handed to `bytes.NewReader`; options are copied first -/
-theorem unmarshalBufUses : Generated.unmarshalBufUses = ["bytes.NewReader(buf)", "bytes.NewReader(buf)"] := rfl
-theorem newSlimTrieOptFlow : Generated.newSlimTrieOptFlow =
-    ["opt := Opt{}", "opt = opts[0]", "normalizeOpt(&opt)", "ns, err := newSlim(keys, vals, &opt)",
-     "newSlim(keys, vals, &opt)"] := rfl
-
+/-! ### C20: the caller's buffer and the caller's options cannot be modified or retained -/
+/-- `Unmarshal(buf)`: no write through `buf`, no store of `buf` (or a sub-slice, or a reader over it) into a
+    field, element, global, closure or goroutine, no hand-over to a call that is not known to copy. -/
+theorem bufEscapes : Generated.bufEscapes = [] := rfl
+/-- `NewSlimTrie(…, opts ...Opt)`: no address of an element of `opts`, no write to one, no pointer-receiver
+    method on one, no hand-over of the slice: the options are read by value only. -/
+theorem optEscapes : Generated.optEscapes = [] := rfl
 
 end Bridge
